@@ -718,6 +718,14 @@ func (runner) Exec(op string) (string, string) {
 			}
 		}
 		return res.reply, dedup(res.viol)
+	case "wchange":
+		rate, ok1 := parseInt(kv["rate"])
+		coinAmt, ok2 := parseInt(kv["coin"])
+		pay, ok3 := parseInt(kv["pay"])
+		if !ok1 || !ok2 || !ok3 {
+			return "bad-op", ""
+		}
+		return runWChange(kv["acct"], rate, coinAmt, pay)
 	case "script":
 		s, ok := buildScript(kv["tok"], -3)
 		if !ok {
@@ -1202,6 +1210,29 @@ func (engine) Generate(rng *rand.Rand, tier string) []core.Case {
 		add(tag, finish(op))
 	}
 	flush()
+
+	// 4b. wallet level (seed C07-6): the change-script size the wallet hands to txauthor, per imported account kind
+	{
+		nw := 42
+		if thorough {
+			nw = 150
+		}
+		wk := []string{"imp49n", "imp49p", "imp84"}
+		for i := 0; i < nw; i++ {
+			k := wk[i%3]
+			rate := []int64{1000, 1001, 2500, 10000, 50000, 100000}[rng.Intn(6)]
+			if rng.Intn(2) == 0 {
+				rate = 1000 + rng.Int63n(99001)
+			}
+			coinAmt := 500000 + rng.Int63n(5000000)
+			pay := 10000 + rng.Int63n(coinAmt/2-10000)
+			add("wchange-"+k, fmt.Sprintf("wchange acct=%s rate=%d coin=%d pay=%d", k, rate, coinAmt, pay))
+			if i%6 == 5 {
+				flush()
+			}
+		}
+		flush()
+	}
 
 	// 5. thorough only: 65533..65537 requested outputs
 	if thorough {
